@@ -94,6 +94,7 @@ Section Pattern.
   (* builder calls followed by generate(): Some pattern, or None with the error stage
      (1 = a block constructor raised, 2 = the pattern constructor raised) *)
   Definition build (name : Z) (namelen : nat) (single : bool) (os : list bop) : pattern + Z :=
+    if Nat.eqb namelen 0 then inr 2 else      (* BoboPatternBuilder.__init__ rejects an empty name at once *)
     match bsteps (mkB [] [] []) os with
     | None => inr 1
     | Some s =>
